@@ -23,3 +23,7 @@ package adapter
 
 //@ func (a Adapter) SubsUpdate(topic string, user t.Uid, update map[string]interface{}) (err error)
 //@ func (a Adapter) FileLinkAttachments(topic string, userId t.Uid, msgId t.Uid, fids []string) (err error)
+
+// The deletion log holds the ranges as they were stored by messagesMapper.DeleteList, i.e. well-formed ones.
+//@ func (a Adapter) MessageGetDeleted(topic string, forUser t.Uid, opts *t.QueryOpt) (dmsgs []t.DelMessage, err error)
+//@   ensures [C04] forall i int, k int :: 0 <= i && i < len(dmsgs) && 0 <= k && k < len(dmsgs[i].SeqIdRanges) ==> dmsgs[i].SeqIdRanges[k].Low >= 0 && (dmsgs[i].SeqIdRanges[k].Hi == 0 || dmsgs[i].SeqIdRanges[k].Hi > dmsgs[i].SeqIdRanges[k].Low)
